@@ -111,6 +111,14 @@ class FAtoms:
     def __len__(self):
         return len(self.idx)
 
+    @property
+    def indices(self):
+        return np.array(self.idx, dtype=int)
+
+    @property
+    def n_atoms(self):
+        return len(self.idx)
+
     def __getattr__(self, nm):
         raise Unsupported(f"AtomGroup model: {nm} not modelled")
 
@@ -131,11 +139,119 @@ class FUniverse:
         u.dimensions = self.dimensions
         return u
 
+    @property
+    def _topology(self):
+        return FTopology(self.masses, self.names)
+
     def select_atoms(self, sel):
-        raise Unsupported("select_atoms is not modelled")
+        import re
+        m = re.fullmatch(r"\s*bynum\s+(\d+)\s*:\s*(\d+)\s*", sel)
+        if not m:
+            raise Unsupported(f"select_atoms({sel!r}) is not modelled (only 'bynum a:b')")
+        a, b = int(m.group(1)), int(m.group(2))
+        n = len(self.names)
+        return FAtoms(self, [i for i in range(n) if a <= i + 1 <= b])      # 1-based, inclusive, clipped to the atoms that exist
 
     def __getattr__(self, nm):
         raise Unsupported(f"Universe model: {nm} not modelled")
+
+
+class FTopology:
+    def __init__(self, masses, names):
+        self.masses, self.names = masses, list(names)
+
+
+class FTimestep:
+    def __init__(self, u, k):
+        self.u, self.frame = u, k
+
+    @property
+    def positions(self):
+        return self.u.frames[self.frame]          # MemoryReader: a VIEW of the coordinate array (edits are permanent)
+
+    @positions.setter
+    def positions(self, v):
+        self.u.frames[self.frame] = np.asarray(_strip(v), dtype=object)
+
+    def __getattr__(self, nm):
+        raise Unsupported(f"Timestep model: {nm} not modelled")
+
+
+class FTrajectory:
+    """MDAnalysis MemoryReader: iteration visits the frames in order and rewinds to frame 0 afterwards"""
+
+    def __init__(self, u):
+        self.u = u
+
+    def __len__(self):
+        return len(self.u.frames)
+
+    @property
+    def n_frames(self):
+        return len(self.u.frames)
+
+    @property
+    def ts(self):
+        return FTimestep(self.u, self.u._cur)
+
+    def __iter__(self):
+        try:
+            for k in range(len(self.u.frames)):
+                self.u._cur = k
+                yield FTimestep(self.u, k)
+        finally:
+            self.u._cur = 0
+
+    def __getitem__(self, k):
+        if isinstance(k, (int, np.integer)):
+            n = len(self.u.frames)
+            if not -n <= k < n:
+                raise IndexError(f"Index {k} exceeds length of trajectory ({n}).")
+            self.u._cur = int(k) % n
+            return FTimestep(self.u, self.u._cur)
+        raise Unsupported("trajectory slicing is not modelled")
+
+    def get_array(self):
+        return self.u.frames
+
+    def __getattr__(self, nm):
+        raise Unsupported(f"trajectory model: {nm} not modelled")
+
+
+class FMemUniverse(FUniverse):
+    """Universe(topology, frames, format=MemoryReader).  MDAnalysis stores `frames.astype(float32, copy=False)`: positions are float32 in
+    MDAnalysis, so an ndarray built from positions is NOT copied -- the universe shares memory with the array it was given."""
+
+    def __init__(self, topology, frames, format=None, **kw):
+        if kw:
+            raise Unsupported(f"Universe keywords {sorted(kw)} not modelled")
+        if not isinstance(topology, FTopology):
+            raise Unsupported("memory universe from something that is not a topology")
+        fr = frames if isinstance(frames, np.ndarray) else np.asarray(_strip(frames), dtype=object)
+        if fr.dtype != object:
+            fr = fr.astype(object)
+        if fr.ndim != 3 or fr.shape[2] != 3:
+            raise ValueError(f"coordinate array of shape {fr.shape}")
+        if fr.shape[1] != len(topology.names):
+            raise ValueError(f"The provided value for n_atoms ({len(topology.names)}) does not match the shape of the coordinate array ({fr.shape[1]})")
+        self.frames = fr.view(SArr)
+        self.masses = _arr(topology.masses).copy()
+        self.names = list(topology.names)
+        self.dimensions = None
+        self._cur = 0
+
+    @property
+    def pos(self):
+        return self.frames[self._cur]
+
+    @property
+    def trajectory(self):
+        return FTrajectory(self)
+
+    def copy(self):
+        u = FMemUniverse(FTopology(self.masses, self.names), self.frames.copy())
+        u._cur, u.dimensions = self._cur, self.dimensions
+        return u
 
 
 def FMerge(*ags):
@@ -220,6 +336,24 @@ def models_selftest(seed=0, rounds=5):
             rc.atoms.translate(t)  # the merged universe does not follow its sources
             fc.atoms.translate(t)
             assert np.allclose(rm.atoms.positions, np.asarray(fm.atoms.positions, dtype=float), atol=1e-4); n += 1
+            # memory universes: sharing with the float32 array they are built from, permanent edits while iterating, rewind, bynum selection
+            from MDAnalysis import Universe as RU
+            from MDAnalysis.coordinates.memory import MemoryReader as RMR
+            nfr = 3
+            fr = np.asarray(rng.normal(size=(nfr, k1 + k2, 3)), dtype=np.float32)
+            ffr = sarr([[[float(x) for x in at] for at in f_] for f_ in fr])
+            rmu, fmu = RU(rm._topology, fr, format=RMR), FMemUniverse(fm._topology, ffr, format="MR")
+            for (uu, arr) in ((rmu, fr), (fmu, ffr)):
+                for ts in uu.trajectory:
+                    uu.atoms.translate(t)
+                sel = uu.select_atoms(f"bynum  {k1 + 1}:{k1 + k2 + 1}")
+                assert list(sel.indices) == list(range(k1, k1 + k2)); n += 1
+                assert len(uu.trajectory) == nfr
+                sub = uu.trajectory.get_array()[:, k1:, :]
+                sub[0, 0, 0] = 77.0                                   # a slice of the coordinate array is a view
+            assert np.allclose(fr, np.asarray(ffr, dtype=float), atol=1e-4); n += 1            # both source arrays saw every edit
+            assert np.allclose(rmu.atoms.positions, np.asarray(fmu.atoms.positions, dtype=float), atol=1e-4); n += 1   # rewound to frame 0
+            assert np.allclose(rmu.trajectory[nfr - 1].positions, np.asarray(fmu.trajectory[nfr - 1].positions, dtype=float), atol=1e-4); n += 1
             A, B = rng.normal(size=(3, 3)), rng.normal(size=(2, 3))
             for metric in ("euclidean", "cosine"):
                 assert np.allclose(cdist(A, B, metric=metric), np.asarray(fcdist(A, B, metric=metric), dtype=float), atol=1e-12); n += 1
